@@ -441,7 +441,7 @@ class Ref:
         """reference_integer_ops / reference_ops Add, Sub, Mul (8-bit), Minimum, Maximum; add.cc / sub.cc / mul.cc Prepare"""
         t = self.tens(out_idx)
         ty = t["type"]
-        if ty not in ("int8", "uint8") or any(self.tens(i)["type"] != ty for i in ins):
+        if ty not in ("int8", "uint8", "int16") or any(self.tens(i)["type"] != ty for i in ins):
             raise Unsupported("elementwise type %s" % ty)
         (s1,), (z1,) = [x[:1] for x in self.quant(ins[0])]
         (s2,), (z2,) = [x[:1] for x in self.quant(ins[1])]
@@ -464,6 +464,15 @@ class Ref:
             res = [min(hi, max(lo, mbqm(int(x) * int(y), q, sh) + int(zo))) for x, y in zip(fa, fb)]
             return np.array(res, dtype=np.int64).reshape(a.shape)
         left = 20
+        if ty == "int16":
+            # add.cc / sub.cc: general_scale_int16 (left shift 15) unless all three scales are powers of two and the zero
+            # points 0 (pot_scale_int16, a different legacy kernel)
+            def pot(v):
+                m_, e_ = math.frexp(float(v))
+                return m_ == 0.5
+            if pot(s1) and pot(s2) and pot(so) and int(z1) == 0 and int(z2) == 0 and int(zo) == 0:
+                raise Unsupported("int16 add/sub with power-of-two scales (legacy kernel)")
+            left = 15
         twice_max = float(np.float32(2) * max(s1, s2))
         q1, sh1 = quantize_multiplier(float(s1) / twice_max)
         q2, sh2 = quantize_multiplier(float(s2) / twice_max)
